@@ -294,6 +294,17 @@ def family_F5(quick):
         lines += [T(e) for e in es]
         yield unit("F5", "gfa2", lines,
                    [("A", k, pol) for k, pol in calls((0, 2, 3), ("off", "R"))])
+  # GFA1 links / containments that carry an identifier (ID tag): the copies
+  # cannot keep it
+  for p, q in end_pairs(names):
+    for cont in (None, ["C", "A", "+", "B", "+", "0", "*", "ID:Z:c1"],
+                 ["C", "B", "-", "A", "+", "0", "*", "ID:Z:c1"]):
+      lk = link_line(p, q) + ["RC:i:7", "ID:Z:l1"]
+      lines = [T(["S", x, "*", "RC:i:7"]) for x in names] + [T(lk)]
+      if cont is not None:
+        lines.append(T(cont))
+      yield unit("F5id", "gfa1", lines,
+                 [("A", k, pol) for k, pol in calls((0, 2, 3), ("off", "R"))])
   selfc = ["C", "A", "+", "A", "+", "0", "*"]
   for nl in (0, 1):
     for combo in itertools.combinations(end_pairs(names), nl):
